@@ -5,6 +5,7 @@ import (
 	"runtime"
 	"testing"
 	"testing/synctest"
+	"time"
 
 	"verifharness/vstat"
 )
@@ -34,7 +35,21 @@ func Bubble(t *testing.T, f func()) (panicMsg string) {
 }
 
 // Wait blocks until every other goroutine of the bubble is durably blocked.
-func Wait() { synctest.Wait() }
+//
+// With the serve-loop yield mapped in (DESIGN section 1.6) a serve loop that still has events to handle is
+// asleep for one nanosecond of fake time between any two of them - durably blocked, as far as
+// synctest.Wait can tell. In that mode Wait therefore also lets two microseconds of fake time pass (room
+// for two thousand loop iterations; an idle loop is parked in its select, not asleep) and waits again.
+func Wait() {
+	synctest.Wait()
+	if YieldMode {
+		time.Sleep(2 * time.Microsecond)
+		synctest.Wait()
+	}
+}
+
+// YieldMode is set by test binaries built with the serve-loop yield.
+var YieldMode bool
 
 // BubbleGoroutines returns the stacks of all goroutines of the current bubble except the caller's.
 // Call it after tearing everything down and Wait(): whatever is listed has leaked.
